@@ -30,6 +30,12 @@ impl Multiclass {
     }
 
     pub fn add_template_arg(&mut self, name: EcoString, template_arg_id: TemplateArgumentId) {
+        #[cfg(tablegen_lsp_verif)]
+        super::verif_oplog::push(format!(
+            "multiclass.add_template_arg\t{}\t{}",
+            name,
+            template_arg_id.index()
+        ));
         self.name_to_template_arg.insert(name, template_arg_id);
     }
 
@@ -42,6 +48,8 @@ impl Multiclass {
     }
 
     pub fn add_parent(&mut self, parent_id: MulticlassId) {
+        #[cfg(tablegen_lsp_verif)]
+        super::verif_oplog::push(format!("multiclass.add_parent\t{}", parent_id.index()));
         self.parent_list.push(parent_id);
     }
 }
